@@ -322,7 +322,7 @@ impl Exec {
         world::with(|w| {
             let ids: Vec<NodeId> = (0..w.nodes.len()).collect();
             for i in ids {
-                if w.nodes[i].drops == 0 && w.nodes[i].parent.is_some() {
+                if w.nodes[i].drops == 0 && w.nodes[i].parent.is_some() && !w.nodes[i].untracked_drop {
                     let m = format!(
                         "{} still alive after the drop of the combinator that was given it returned",
                         w.path(i)
